@@ -219,6 +219,10 @@ func (ex *Exec) symbolicTime(name string) timeV {
 	g := big.NewInt(ex.grid)
 	lo.Div(lo, g)
 	hi.Div(hi, g)
+	if span, ok := ex.params["t0span"]; ok {
+		// start instant restricted to a window of `span` grid steps after 2001-01-01
+		hi = new(big.Int).Add(lo, big.NewInt(span))
+	}
 	ex.addCond(tc.BVCmp("bvuge", q, ex.bigConst(lo)))
 	ex.addCond(tc.BVCmp("bvule", q, ex.bigConst(hi)))
 	return timeV{q, rem}
@@ -353,13 +357,53 @@ func (ex *Exec) timeUnix(t timeV) *Term {
 	} else {
 		sec80 = tc.UDiv(ex.timeTotalNs(t), tc.BVConst(timeW, 1e9))
 	}
-	return tc.Sub(tc.Extract(sec80, 63, 0), tc.Int64(unixToInternal))
+	u := tc.Sub(tc.Extract(sec80, 63, 0), tc.Int64(unixToInternal))
+	// instants handled by the harnesses lie between 1970 and year ~36000 (listed assumption)
+	ex.addCond(tc.And(tc.SGe(u, tc.Int64(0)), tc.SLe(u, tc.Int64(1<<40))))
+	return u
 }
 
 func (ex *Exec) timeUnixNano(t timeV) *Term {
 	tc := ex.tc
 	off := new(big.Int).Mul(big.NewInt(unixToInternal), big.NewInt(1e9))
-	return tc.Extract(tc.Sub(ex.timeTotalNs(t), ex.bigConst(off)), 63, 0)
+	r := tc.Extract(tc.Sub(ex.timeTotalNs(t), ex.bigConst(off)), 63, 0)
+	// UnixNano is only defined by Go for instants whose nanosecond count fits in int64
+	// (years 1678..2262); harness instants are within that range (listed assumption)
+	ex.addCond(tc.And(tc.SGe(r, tc.Int64(0)), tc.SLe(r, tc.Int64(1<<62))))
+	if t.rem.IsConst() && t.rem.isZero() && !r.IsConst() {
+		if ex.linForms == nil {
+			ex.linForms = map[int]linForm{}
+		}
+		ex.linForms[r.id] = linForm{q: t.q, g: ex.grid, off: off}
+	}
+	return r
+}
+
+// linForm records that a 64-bit term equals q*g - off (no overflow), q an 80-bit term.
+type linForm struct {
+	q   *Term
+	g   int64
+	off *big.Int
+}
+
+// divLinForm: (q*g - off) / d  ==  q*(g/d) - off/d  when d | g and d | off.
+func (ex *Exec) divLinForm(a *Term, d int64) *Term {
+	lf, ok := ex.linForms[a.id]
+	if !ok || d <= 0 || lf.g%d != 0 {
+		return nil
+	}
+	od, om := new(big.Int).QuoRem(lf.off, big.NewInt(d), new(big.Int))
+	if om.Sign() != 0 {
+		return nil
+	}
+	tc := ex.tc
+	q := lf.q
+	if lf.g/d != 1 {
+		q = tc.Mul(q, tc.BVConst(timeW, uint64(lf.g/d)))
+	}
+	r := tc.Extract(tc.Sub(q, ex.bigConst(od)), 63, 0)
+	ex.addCond(tc.And(tc.SGe(r, tc.Int64(0)), tc.SLe(r, tc.Int64(1<<62))))
+	return r
 }
 
 func (ex *Exec) timeTruncate(t timeV, d *Term) timeV {
